@@ -443,13 +443,20 @@ def _ref_name(tree: ast.Module) -> tuple[bool, str]:
         raise Unsupported("reference name: neither an f-string nor _free_reference(f-string, taken)")
     suf = suffix(v.args[0])
     first = [st for st in fn.body if not (isinstance(st, ast.Expr) and isinstance(st.value, ast.Constant))]
-    if not (len(first) == 2 and ast.unparse(first[0]) == "taken = set(model.ids)" and isinstance(first[1], ast.For)):
-        raise Unsupported("_create_sbml_reactions: `taken = set(model.ids)` followed by the loop over the reactions")
+    t0 = ast.unparse(first[0]) if first else ""
+    forms = {"taken = set(model.ids)": False,
+             "taken = set(model.ids) | {c.getId() for c in sbml_model.getListOfCompartments()}": True}
+    if not (len(first) == 2 and t0 in forms and isinstance(first[1], ast.For)):
+        raise Unsupported("_create_sbml_reactions: `taken = set(model.ids)` [| compartment ids] followed by the loop over the reactions")
+    _ref_name.avoids_compartments = forms[t0]
     fr = ast.unparse(ast.Module(body=[st for st in _fn(tree, "_free_reference").body
                                       if not (isinstance(st, ast.Expr) and isinstance(st.value, ast.Constant))], type_ignores=[]))
     if fr != "while name in taken:\n    name = f'{name}_'\ntaken.add(name)\nreturn name":
         raise Unsupported(f"_free_reference: body not recognised:\n{fr}")
     return True, suf
+
+
+_ref_name.avoids_compartments = False
 
 
 def _prefixes(tree: ast.Module) -> dict[str, str]:
@@ -542,6 +549,7 @@ def render(repo: Path) -> str:
     bin_np = _binary_numpy_only(tree)
     first_ret = _body_first_return(tree)
     _keywords_refused(tree)
+    _ref_name.avoids_compartments = False
     ref_fresh, ref_suffix = _ref_name(tree)
     pre = _prefixes(tree)
     order_m = _export_order(tree)
@@ -587,6 +595,7 @@ def iaSetter : String := "{setter}"
 def bodyFirstReturn : Bool := {str(first_ret).lower()}
 def refFresh : Bool := {str(ref_fresh).lower()}
 def refSuffix : String := "{ref_suffix}"
+def refAvoidsCompartments : Bool := {str(bool(ref_fresh and _ref_name.avoids_compartments)).lower()}
 def prefixParam : String := "{pre['param']}"
 def prefixVar : String := "{pre['var']}"
 def prefixRule : String := "{pre['rule']}"
